@@ -68,6 +68,7 @@ func isStruct(t reflect.Type) bool {
 	// reaches a struct.
 	var seen map[reflect.Type]struct{}
 	for t.Kind() == reflect.Ptr {
+		verifPoint("struct.deref", nil)
 		if _, ok := seen[t]; ok {
 			return false
 		}
